@@ -117,3 +117,63 @@ Proof.
   destruct (outside_by_spec _ _ _ _ _ _ _ R1) as (A1 & A2 & A3 & A4 & _).
   destruct (outside_by_spec _ _ _ _ _ _ _ R2) as (B1 & B2 & B3 & B4 & _). tauto.
 Qed.
+
+Lemma sq_nonneg x : 0 <= sq x. Proof. unfold sq. nra. Qed.
+Lemma sq_comp x y : x == y -> sq x == sq y. Proof. intros E. unfold sq. rewrite E. reflexivity. Qed.
+
+Lemma convex_near ax ay bx by_ px py qx qy tp tq lam e2 : 0 <= lam <= 1 ->
+  sq (px - (ax + tp * (bx - ax))) + sq (py - (ay + tp * (by_ - ay))) <= e2 ->
+  sq (qx - (ax + tq * (bx - ax))) + sq (qy - (ay + tq * (by_ - ay))) <= e2 ->
+  sq ((px + lam * (qx - px)) - (ax + (tp + lam * (tq - tp)) * (bx - ax))) + sq ((py + lam * (qy - py)) - (ay + (tp + lam * (tq - tp)) * (by_ - ay))) <= e2.
+Proof.
+  intros Hl HP HQ.
+  set (u1 := px - (ax + tp * (bx - ax))) in *. set (u2 := py - (ay + tp * (by_ - ay))) in *.
+  set (v1 := qx - (ax + tq * (bx - ax))) in *. set (v2 := qy - (ay + tq * (by_ - ay))) in *.
+  rewrite (sq_comp (px + lam * (qx - px) - (ax + (tp + lam * (tq - tp)) * (bx - ax))) ((1 - lam) * u1 + lam * v1)) by (unfold u1, v1; ring).
+  rewrite (sq_comp (py + lam * (qy - py) - (ay + (tp + lam * (tq - tp)) * (by_ - ay))) ((1 - lam) * u2 + lam * v2)) by (unfold u2, v2; ring).
+  clearbody u1 u2 v1 v2.
+  assert (E : sq ((1 - lam) * u1 + lam * v1) + sq ((1 - lam) * u2 + lam * v2) ==
+              (1 - lam) * (sq u1 + sq u2) + lam * (sq v1 + sq v2) - lam * (1 - lam) * (sq (u1 - v1) + sq (u2 - v2))) by (unfold sq; ring).
+  rewrite E.
+  assert (N : 0 <= lam * (1 - lam) * (sq (u1 - v1) + sq (u2 - v2))).
+  { apply Qmult_le_0_compat; [apply Qmult_le_0_compat; lra|]. pose proof (sq_nonneg (u1 - v1)). pose proof (sq_nonneg (u2 - v2)). lra. }
+  assert (A : (1 - lam) * (sq u1 + sq u2) <= (1 - lam) * e2) by nra.
+  assert (B : lam * (sq v1 + sq v2) <= lam * e2) by nra.
+  lra.
+Qed.
+
+(* the "covers" half: every point of the input segment that lies inside the rectangle deflated by eps is within eps of a point of the
+   returned segment (the two ends of the inside part are, by the judgement; every point between them is, by convexity) *)
+Theorem sandwich_covers_sound eps s xmin xmax ymin ymax r :
+  sandwich_ok eps s xmin xmax ymin ymax true r = true ->
+  forall u, 0 <= u <= 1 -> inside_rect (xmin + eps) (xmax - eps) (ymin + eps) (ymax - eps) (seg_x s u) (seg_y s u) ->
+  exists t, 0 <= t <= 1 /\ sq (seg_x s u - seg_x r t) + sq (seg_y s u - seg_y r t) <= sq eps.
+Proof.
+  unfold sandwich_ok. cbv zeta. cbn [negb]. intros H u Hu Hin.
+  apply andb_true_iff in H. destruct H as [_ Hc].
+  destruct (Qleb (xmin + eps) (xmax - eps) && Qleb (ymin + eps) (ymax - eps)) eqn:E.
+  2:{ exfalso. destruct Hin as [Hx Hy]. apply andb_false_iff in E. destruct E as [E|E]; apply Qleb_false in E; lra. }
+  pose proof (exact_clip_spec s (xmin + eps) (xmax - eps) (ymin + eps) (ymax - eps)) as S.
+  destruct (exact_clip s (xmin + eps) (xmax - eps) (ymin + eps) (ymax - eps)) as [[u1 u2]|]; [|exfalso; exact (S u Hu Hin)].
+  destruct S as (S1 & S12 & S2 & S).
+  assert (Hu12 : u1 <= u <= u2) by (apply S; split; assumption).
+  apply andb_true_iff in Hc. destruct Hc as [C1 C2]. apply Qleb_iff in C1, C2.
+  destruct (d2seg_witness _ _ _ _ _ _ _ C1) as (tp & Htp & Dp). destruct (d2seg_witness _ _ _ _ _ _ _ C2) as (tq & Htq & Dq).
+  destruct (Qlt_le_dec u1 u2) as [L|G].
+  - set (lam := (u - u1) / (u2 - u1)).
+    assert (Hl : 0 <= lam <= 1).
+    { unfold lam. split; [apply Qle_shift_div_l; lra|apply Qle_shift_div_r; lra]. }
+    pose proof (convex_near _ _ _ _ _ _ _ _ tp tq lam (sq eps) Hl Dp Dq) as Cv.
+    exists (tp + lam * (tq - tp)). split; [split; nra|].
+    unfold seg_x, seg_y.
+    assert (Eu : u == u1 + lam * (u2 - u1)) by (unfold lam; field; lra).
+    rewrite (sq_comp (x1 s + u * (x2 s - x1 s) - (x1 r + (tp + lam * (tq - tp)) * (x2 r - x1 r)))
+                     (x1 s + u1 * (x2 s - x1 s) + lam * (x1 s + u2 * (x2 s - x1 s) - (x1 s + u1 * (x2 s - x1 s))) - (x1 r + (tp + lam * (tq - tp)) * (x2 r - x1 r)))) by (rewrite Eu at 1; ring).
+    rewrite (sq_comp (y1 s + u * (y2 s - y1 s) - (y1 r + (tp + lam * (tq - tp)) * (y2 r - y1 r)))
+                     (y1 s + u1 * (y2 s - y1 s) + lam * (y1 s + u2 * (y2 s - y1 s) - (y1 s + u1 * (y2 s - y1 s))) - (y1 r + (tp + lam * (tq - tp)) * (y2 r - y1 r)))) by (rewrite Eu at 1; ring).
+    exact Cv.
+  - assert (Eu : u == u1) by lra. exists tp. split; [exact Htp|]. unfold seg_x, seg_y.
+    rewrite (sq_comp (x1 s + u * (x2 s - x1 s) - (x1 r + tp * (x2 r - x1 r))) (x1 s + u1 * (x2 s - x1 s) - (x1 r + tp * (x2 r - x1 r)))) by (rewrite Eu; reflexivity).
+    rewrite (sq_comp (y1 s + u * (y2 s - y1 s) - (y1 r + tp * (y2 r - y1 r))) (y1 s + u1 * (y2 s - y1 s) - (y1 r + tp * (y2 r - y1 r)))) by (rewrite Eu; reflexivity).
+    exact Dp.
+Qed.
